@@ -9,7 +9,7 @@ ROOT = os.path.dirname(os.path.abspath(__file__))
 CLAIMED = {
     "C01": (
         "Lean 4 theorems on a hand-written model (list induction, bv_omega, decide +kernel over 256 bytes) + differential correspondence model vs code",
-        "dec (enc f) = ok f and dec (encNL f) = ok f proved for every well-formed frame (all addresses, types, 0..=255 data bytes), shape / checksum-sum-zero / big-endian address / exact length field / Data::try_new bound proved; the model is tied to frame.rs by running to_bytes, to_bytes_with_newline, from_bytes and Data::try_new (owned and borrowed) and the model driver on the same ~21k (quick) case lines and diffing, plus an independent format!-based encoder as oracle.",
+        "dec (enc f) = ok f and dec (encNL f) = ok f proved for every well-formed frame (all addresses, types, 0..=255 data bytes), shape / checksum-sum-zero / big-endian address / exact length field / Data::try_new bound proved; the model is tied to frame.rs by running to_bytes, to_bytes_with_newline, from_bytes and Data::try_new (owned and borrowed) and the model driver on the same ~21k (quick) case lines and diffing, plus an independent format!-based encoder as oracle. Props/C01_display.lean: the printed form of a frame (Display, what a bus monitor logs) has the documented shape and is injective (display_injective); tied by the `fshow` verb on every frame of the stream.",
         "Theorems are about lean/Flipdot/Model/Frame.lean, not about the Rust source; the tie is differential testing (address x type grid exhaustive, data contents sampled). regex crate and Vec modelled, not verified.",
         "§6 C01"),
     "C04": (
@@ -24,7 +24,7 @@ CLAIMED = {
         "§6 C05"),
     "C06": (
         "Lean 4 theorems on a hand-written model + differential correspondence model vs code (exhaustive where the domain is finite); bit facts by decide +kernel over 256 bytes x 8 x 8 bit positions",
-        "get-after-set, frame condition for every other pixel (byte/bit injectivity), preservation of id/dimensions/length/padding, set-all, out-of-bounds = panic, in-bounds = no panic, and the history theorem (any sequence of in-bounds set/clear/set-all refines plain function update, by induction over the operation list) proved for every well-formed page of any dimensions. Tie: Page::{new,from_bytes,get_pixel,set_pixel,set_all_pixels,as_bytes,id} vs the model on a complete box of sizes, all out-of-bounds probes and random operation sequences on owned and borrowed pages, plus a Vec<Vec<bool>> shadow oracle.",
+        "get-after-set, frame condition for every other pixel (byte/bit injectivity), preservation of id/dimensions/length/padding, set-all, out-of-bounds = panic, in-bounds = no panic, and the history theorem (any sequence of in-bounds set/clear/set-all refines plain function update, by induction over the operation list) proved for every well-formed page of any dimensions. Tie: Page::{new,from_bytes,get_pixel,set_pixel,set_all_pixels,as_bytes,id} vs the model on a complete box of sizes, all out-of-bounds probes and random operation sequences on owned and borrowed pages, plus a Vec<Vec<bool>> shadow oracle. Props/C06_render.lean + C06_pixels.lean: the printed picture (Display for Page, modelled as the loops of page.rs) equals the specified picture after every history of in-bounds operations (render_history), never panics on a well-formed page, has the documented shape, determines every pixel (render_determines_pixels), and set_pixel changes the text at exactly one position (render_set_frame); tied by the `d` operation at the end of every operation sequence on pages of at most 400 pixels.",
         "u32/usize arithmetic modelled in Nat (no overflow possible with 64-bit usize and u32 dimensions); allocation failure for absurd sizes outside the model.",
         "§6 C06"),
     "C07": (
@@ -60,7 +60,7 @@ CLAIMED = {
     "C10": (
         "Lean 4 theorems on a hand-written interaction-tree model of the controller + differential correspondence (exhaustive reply-tree enumeration); per-operation refinement theorems Prog.ConvsIn Spec and a reply-classification theorem",
         "For configure, configure-if-needed, send-pages, show, load-next and shut-down: every conversation against every reply script satisfies the documented protocol stated as inductive relations on conversations (Spec/CtrlProtocol.lean: EnsureOK/EnsureStop, TransferSpec, ConfigureSpec, ConfigureIfNeededSpec, SendPagesSpec, SwitchSpec, ShutDownSpec), with the prescribed outcome; polling fuel never binds; and *_class: messages and outcome depend only on the class of each reply (own report s / own ack o / silence / unrelated / bus error), which extends the exhaustive finite-alphabet enumeration to all replies (all 65536 addresses, arbitrary frames). Tie: the reply-tree enumeration compares model trace+outcome with the real Sign on a recording scripted SignBus and with an independent state-machine port of the protocol in the harness.",
-        "Spec relations were written from the doc comments of sign.rs. For configure, configure-if-needed, send-pages and shut-down the converse is proved too (Props/C10_exact.lean: a conversation satisfies the protocol iff the controller produces it; the protocol is functional in the replies); for show / load-next only the refinement direction (the polling loop needs fuel in the model). u16 counter limit as in C09.",
+        "Spec relations were written from the doc comments of sign.rs. For configure, configure-if-needed, send-pages and shut-down the converse is proved too (Props/C10_exact.lean: a conversation satisfies the protocol iff the controller produces it; the protocol is functional in the replies); for show / load-next the converse is proved as well (Props/C10_switch.lean: switchPage_exact, switchSpec_functional — for every conversation that is not the model's own out-of-fuel artefact). u16 counter limit as in C09.",
         "§6 C10"),
     "C11": (
         "Lean 4 theorems on a hand-written interaction-tree model of the controller + differential correspondence (exhaustive reply-tree enumeration); structural predicates AllSends / Strict / Respects on interaction trees lifted to all runs",
